@@ -160,7 +160,24 @@ func goid() uint64 {
 func writerOp(c *rosmar.Collection, r *rng.R, key, tok string, last map[string]uint64) (kind string, cas uint64, ok bool, errClass string) {
 	var err error
 	body := []byte(fmt.Sprintf(`{"v":%q}`, tok))
-	switch r.Intn(10) {
+	switch r.Intn(11) {
+	case 10:
+		// a replicated version: caller-chosen CAS a little ahead of the key's current one and of the wall clock. Its
+		// event need not fit into the CAS order of the feed (the CAS is not the clock's), but it is one event, and
+		// the feed must end with whichever version was applied last
+		kind = "SetWithMeta"
+		_, cur, _ := c.GetRaw(key)
+		if cur == 0 {
+			if out := Call(c, In{Kind: OGetX, Key: key}); out.Err == "" {
+				cur = out.Cas
+			}
+		}
+		cas = cur
+		if now := uint64(time.Now().UnixNano()); now > cas {
+			cas = now
+		}
+		cas = (cas+uint64(1+r.Intn(500))*0x10000)&^0xFFFF | uint64(0x8001+r.Intn(0x7000))
+		err = c.SetWithMeta(ctxBG, key, cur, cas, 0, nil, body, sgbucket.FeedDataTypeJSON)
 	case 0:
 		kind = "Set"
 		err = c.Set(key, 0, nil, body)
@@ -198,12 +215,14 @@ func writerOp(c *rosmar.Collection, r *rng.R, key, tok string, last map[string]u
 }
 
 type OrderResult struct {
-	Acks        int            `json:"acks"`
-	Events      int            `json:"events"`
-	Inversions  int            `json:"inversions"`
-	MaxInWindow int64          `json:"maxInWindow"`
-	Hits        int64          `json:"prepostHits"`
-	Refusals    map[string]int `json:"refusals"`
+	Acks         int            `json:"acks"`
+	Events       int            `json:"events"`
+	Inversions   int            `json:"inversions"`
+	MaxInWindow  int64          `json:"maxInWindow"`
+	Hits         int64          `json:"prepostHits"`
+	Refusals     map[string]int `json:"refusals"`
+	MetaWrites   int            `json:"withMetaWrites"`
+	FinalChecked int            `json:"finalVersionsChecked"`
 }
 
 // FeedOrderRun: writers over all handles, live feeds on every collection through two handles; after a barrier every
@@ -325,12 +344,54 @@ func FeedOrderRun(m *MultiBucket, writers, opsEach, keys int, r *rng.R, noiseSee
 	}
 	res.Acks = len(acks)
 	detail := map[string]any{}
+	metaCas := map[string]bool{}
+	for _, a := range acks {
+		if a.Kind == "SetWithMeta" {
+			metaCas[fmt.Sprintf("%d/%s/%d", a.Coll, a.Key, a.Cas)] = true
+			res.MetaWrites++
+		}
+	}
+	// what each key ended as
+	final := map[string]uint64{}
+	for ci := 0; ci < colls; ci++ {
+		for k := 0; k < keys; k++ {
+			for _, key := range []string{fmt.Sprintf("k%d", k), fmt.Sprintf("nk%d", k)} {
+				o := kv.ReadBack(m.CollsBy[0][ci], key)
+				if c := o.RowCas(); c != 0 {
+					final[fmt.Sprintf("%d/%s", ci, key)] = c
+				}
+			}
+		}
+	}
 	for _, f := range feeds {
 		evs := f.Snapshot()
+		// (0) the last event a feed delivered for a key is the version the key ended as: events are posted in the order
+		// in which the writes were applied, whatever their CAS
+		lastOf := map[string]FEv{}
+		for _, e := range evs {
+			lastOf[e.Key] = e
+		}
+		for key, e := range lastOf {
+			if fc, ok := final[fmt.Sprintf("%d/%s", f.Coll, key)]; ok && fc != e.Cas {
+				if _, seen := detail["final"]; !seen {
+					detail["final"] = map[string]any{"feed": f.ID, "key": key, "last_event_cas": e.Cas, "stored_cas": fc}
+					problems = append(problems, fmt.Sprintf("final|feed %s: the last event delivered for key %s carries CAS %d, but the key ended as the version with CAS %d: an event was posted out of the order in which the writes were applied", f.ID, key, e.Cas, fc))
+				}
+			}
+			res.FinalChecked++
+		}
 		res.Events += len(evs)
-		// (i) order
+		// (i) order (events of WithMeta writes carry caller-chosen CAS values and are left out of the comparison)
 		var prev FEv
-		for i, e := range evs {
+		first := true
+		for _, e := range evs {
+			if metaCas[fmt.Sprintf("%d/%s/%d", f.Coll, e.Key, e.Cas)] {
+				continue
+			}
+			i := 1
+			if first {
+				i, first = 0, false
+			}
 			if i > 0 && e.Cas <= prev.Cas {
 				res.Inversions++
 				if _, ok := detail["inversion"]; !ok {
